@@ -28,7 +28,8 @@
    passed earlier), NewChannel, SolveBD(block_diagonalize | block_diagonalize_no_waterfilling | the
    module-level block_diagonalize), SolveExt (block_diagonalize_no_waterfilling(mu_channel) of
    WhiteningBD / EnhancedBD), CalcWhitening (calc_whitening_matrices of the same two classes),
-   CalcReceiveFilter (static method | module function), Scribble (the caller overwrites the arrays it
+   CalcReceiveFilter (static method | module function), CalcFilterUserK (calc_receive_filter_user_k as a public
+   static method with a caller-chosen P), Scribble (the caller overwrites the arrays it
    got back).
 
    Sweep = TRUE  restricts the machine to the canonical order Construct, SetMetric?, NewChannel,
@@ -74,13 +75,15 @@ view == <<obj, metric, alias, chan, last>>
 \* exact values of the labels (num, den); the harness converts them to floats
 PowerVal    == [lo |-> <<1, 10>>, hi |-> <<5, 1>>, mid |-> <<3, 2>>]
 NoiseVal    == [lo |-> <<1, 10000>>, hi |-> <<2, 1>>, mid |-> <<1, 10>>]
-ExtPowerVal == [zero |-> <<0, 1>>, lo |-> <<1, 2>>, hi |-> <<8, 1>>, na |-> <<0, 1>>]
+\* tiny: interference far below the noise (removal is still required exactly); huge: dominant interference (a deciding
+\* metric is then certain to sacrifice streams)
+ExtPowerVal == [zero |-> <<0, 1>>, lo |-> <<1, 2>>, hi |-> <<8, 1>>, na |-> <<0, 1>>, tiny |-> <<1, 10000>>, huge |-> <<1000000, 1>>]
 
 MetricNames == {"None", "naive", "fixed", "capacity", "effective_throughput"}
 NoMetric == [name |-> "None", ns |-> 0, mod |-> "none", plen |-> 0]
 NoArgs   == [ns |-> 0, mod |-> "none", plen |-> 0]
 NoObj    == [cls |-> "none", K |-> 0, p |-> "na", nv |-> "na", pe |-> "na", p0 |-> "na"]
-NoChan   == [N |-> 0, rE |-> 0, sc |-> 0, intact |-> TRUE]
+NoChan   == [N |-> 0, rE |-> 0, src |-> 0, sc |-> 0, intact |-> TRUE]
 NoLast   == [op |-> "none", kind |-> "none", n |-> 0, mname |-> "None", N |-> 0, rE |-> 0, filt |-> FALSE, onCur |-> FALSE,
              pe |-> "na", cur |-> TRUE, rankok |-> TRUE]
 
@@ -176,14 +179,16 @@ EditDict ==
 \* rE >= 1 a MultiUserChannelMatrixExtInt with an external interference source of that rank
 \* sc: the whole matrix [H | He] is scaled by 10^sc; the noise variance given to the channel OBJECT scales with it
 \* (10^(2 sc) nv: the same scenario in other units), the object's own noise_var attribute does not.
-NewChannel(N, rE, sc) ==
+\* src: the number of external interference SOURCES the rank rE is split over (NtE = <<rE>> or <<rE \div 2, rE - rE \div 2>>)
+NewChannel(N, rE, sc, src) ==
   /\ "NewChannel" \in Acts /\ obj # NoObj
   /\ (rE = 0) = (obj.cls = "BD")
+  /\ IF rE = 0 THEN src = 0 ELSE src \in 1..2 /\ src <= rE
   /\ Sweep => (chan = NoChan)
-  /\ chan' = [N |-> N, rE |-> rE, sc |-> sc, intact |-> TRUE]
+  /\ chan' = [N |-> N, rE |-> rE, src |-> src, sc |-> sc, intact |-> TRUE]
   /\ last' = [last EXCEPT !.onCur = FALSE]
   /\ UNCHANGED <<obj, metric, alias>>
-  /\ Step("NewChannel", [N |-> N, rE |-> rE, sc |-> sc], "ok")
+  /\ Step("NewChannel", [N |-> N, rE |-> rE, sc |-> sc, nte |-> IF src <= 1 THEN <<rE>> ELSE <<rE \div 2, rE - (rE \div 2)>>], "ok")
 
 (* ---------------------------------- solves ------------------------------------------------------ *)
 \* block_diagonalize(H) (every class inherits it), block_diagonalize_no_waterfilling(H) of the plain class,
@@ -238,6 +243,16 @@ CalcWhitening ==
   /\ UNCHANGED <<obj, metric, alias, chan>>
   /\ Step("CalcWhitening", [cfg |-> CfgVals(obj)], "ok")
 
+\* EnhancedBD.calc_receive_filter_user_k(Heq_k_P, P) called directly as the public static method, with a caller-chosen generic
+\* full-column-rank P of ns columns (ns = 0: P = None) and a generic equivalent channel
+FilterKResult(c, ns) == [NoLast EXCEPT !.op = "filterk", !.n = ns, !.N = c.N, !.onCur = TRUE]
+CalcFilterUserK(ns) ==
+  /\ "CalcFilterUserK" \in Acts /\ obj.cls = "EBD" /\ chan.N > 0 /\ ns <= chan.N
+  /\ Sweep => (last = NoLast /\ metric = NoMetric)
+  /\ last' = FilterKResult(chan, ns)
+  /\ UNCHANGED <<obj, metric, alias, chan>>
+  /\ Step("CalcFilterUserK", [ns |-> ns], "ok")
+
 \* calc_receive_filter(newH) on the effective channel returned by the last plain solve
 CalcReceiveFilter(how) ==
   /\ "CalcReceiveFilter" \in Acts /\ last.op \in BDops
@@ -257,20 +272,23 @@ Scribble ==
 
 DoConstruct == \E c \in Configs : Construct(c)
 DoSetMetric == obj.cls = "EBD" /\ \E name \in MetricNames \cup {"lala"} : \E a \in Supplied(name) : SetMetric(name, a)
-DoNewChannel == obj # NoObj /\ \E N \in Ants : \E rE \in Ranks \cup {0} : \E sc \in Scales : NewChannel(N, rE, sc)
+DoNewChannel == obj # NoObj /\ \E N \in Ants : \E rE \in Ranks \cup {0} : \E sc \in Scales : \E src \in 0..2 : NewChannel(N, rE, sc, src)
 DoSolveBD == \E op \in BDops : SolveBD(op)
 DoSetAttr == /\ obj # NoObj /\ ~Sweep
              /\ \/ \E lab \in PLabels : SetAttr("iPu", lab)
                 \/ \E lab \in NvLabels : SetAttr("noise_var", lab)
                 \/ \E lab \in PeLabels : SetAttr("pe", lab)
 DoCalcReceiveFilter == \E how \in {"static", "module"} : CalcReceiveFilter(how)
-Next == DoConstruct \/ DoSetAttr \/ DoSetMetric \/ EditDict \/ DoNewChannel \/ DoSolveBD \/ SolveExt \/ CalcWhitening \/ DoCalcReceiveFilter \/ Scribble
+DoCalcFilterUserK == obj.cls = "EBD" /\ \E ns \in 0..3 : CalcFilterUserK(ns)
+Next == DoCalcFilterUserK \/ DoConstruct \/ DoSetAttr \/ DoSetMetric \/ EditDict \/ DoNewChannel \/ DoSolveBD \/ SolveExt \/ CalcWhitening \/ DoCalcReceiveFilter \/ Scribble
 Spec == Init /\ [][Next]_vars
 
 (* ---------------------------------- what the property requires --------------------------------- *)
 \* the predicates of the property that must hold for what was last computed (evaluated numerically, (rel))
 ReqOf(o, l) ==
   IF l.op = "none" THEN {}
+  ELSE IF l.op = "filterk" THEN {"FilterInvertsInsideSpanOfP", "InputsUntouched", "EarlierResultsUnchanged"}
+                                 \cup (IF l.n > 0 /\ l.n < l.N THEN {"FilterIgnoresOutsideSpanOfP"} ELSE {})
   ELSE IF l.op = "whiten" THEN {"WhiteningFiltersWhitenExtIntPlusNoise", "InputsUntouched", "EarlierResultsUnchanged"}
   ELSE IF l.op \in BDops THEN
          {"EffectiveChannelBlockDiagonal", "ReturnedChannelIsChannelTimesPrecoder", "PowerLePerUser", "SameAsFreshObject", "InputsUntouched",
@@ -292,6 +310,10 @@ ReqOf(o, l) ==
                 /\ l.N - l.rE >= 1
                 /\ l.kind = "fixed" => l.n <= l.N - l.rE
              THEN {"ExtIntRemovedWhenEnoughStreamsSacrificed"} ELSE {})
+       \* dominant interference: a deciding metric cannot prefer streams inside the interference subspace
+       \* (beyond the statement; makes the removal clause non-vacuous for the deciding metrics)
+       \cup (IF l.kind = "decided" /\ l.pe = "huge" /\ l.N - l.rE >= 1
+             THEN {"DecidedCountAvoidsDominantInterference"} ELSE {})
 Required == ReqOf(obj, last)
 
 (* ---------------------------------- laws of the machine ----------------------------------------- *)
@@ -300,8 +322,8 @@ TypeOK ==
   /\ obj = NoObj \/ [cls |-> obj.cls, K |-> obj.K, p |-> obj.p, nv |-> obj.nv, pe |-> obj.pe] \in Configs
   /\ metric \in [name : MetricNames, ns : 0..3, mod : {"none"} \cup Mods, plen : {0} \cup PLens]
   /\ alias \in BOOLEAN
-  /\ chan \in [N : {0} \cup Ants, rE : {0} \cup Ranks, sc : {0} \cup Scales, intact : BOOLEAN]
-  /\ last.op \in {"none", "whiten"} \cup BDops \cup ExtOps /\ last.kind \in {"none", "all", "fixed", "decided"}
+  /\ chan \in [N : {0} \cup Ants, rE : {0} \cup Ranks, src : 0..2, sc : {0} \cup Scales, intact : BOOLEAN]
+  /\ last.op \in {"none", "whiten", "filterk"} \cup BDops \cup ExtOps /\ last.kind \in {"none", "all", "fixed", "decided"}
   /\ obj.cls # "EBD" => metric = NoMetric
 
 \* the stored extra arguments are exactly the ones the metric needs
@@ -321,8 +343,8 @@ PowerRules == {"PowerEqPerUser", "PowerReachedByOne"}
 RequiredAfterSolve ==
   last.op # "none" =>
     /\ Required # {}
-    /\ last.op # "whiten" => Cardinality(Required \cap PowerRules) = 1
-    /\ last.op # "whiten" => Cardinality(Required \cap {"EffectiveChannelBlockDiagonal", "InterUserNullWithExtInt"}) = 1
+    /\ last.op \notin {"whiten", "filterk"} => Cardinality(Required \cap PowerRules) = 1
+    /\ last.op \notin {"whiten", "filterk"} => Cardinality(Required \cap {"EffectiveChannelBlockDiagonal", "InterUserNullWithExtInt"}) = 1
     /\ last.op \in ExtOps => Cardinality(Required \cap {"AllStreamsKept", "StreamCountIsNumStreams", "StreamCountInRange"}) = 1
     /\ "ExtIntRemovedWhenEnoughStreamsSacrificed" \in Required =>
          last.op = "ebd" /\ last.mname # "naive" /\ last.kind # "all" /\ last.N > last.rE
@@ -337,7 +359,7 @@ SolveUsesCurrentMetric ==
        /\ last' = ExtResult(obj, metric, chan)]_vars
 OnlySettersChangeObject == [][obj' # obj => ret'.op \in {"Construct", "SetAttr"}]_vars
 SetAttrChangesOnlyThat == [][ret'.op = "SetAttr" => (UNCHANGED <<metric, alias, chan, last>> /\ obj'.cls = obj.cls /\ obj'.K = obj.K)]_vars
-SolveLeavesConfig == [][ret'.op \in {"SolveExt", "SolveBD", "CalcReceiveFilter", "CalcWhitening"} => UNCHANGED <<obj, metric, alias, chan>>]_vars
+SolveLeavesConfig == [][ret'.op \in {"SolveExt", "SolveBD", "CalcReceiveFilter", "CalcWhitening", "CalcFilterUserK"} => UNCHANGED <<obj, metric, alias, chan>>]_vars
 
 (* ---------------------------------- emission ------------------------------------------------------ *)
 StateRec  == [obj |-> obj, metric |-> metric, alias |-> alias, chan |-> chan, last |-> last]
@@ -351,7 +373,7 @@ ProbeOf(o, m, c) == IF ExtEnabled(o, m, c)
 \* earlier results and the argument copies)
 FrameOf(r) == {"ArgumentsUnchanged", "EarlierResultsUnchanged"}
               \cup (IF r.out = "rejected" THEN {"RejectedChangesNothing"} ELSE {})
-              \cup (IF r.op \in {"CalcWhitening", "CalcReceiveFilter"} THEN {"QueryIsPure"} ELSE {})
+              \cup (IF r.op \in {"CalcWhitening", "CalcReceiveFilter", "CalcFilterUserK"} THEN {"QueryIsPure"} ELSE {})
               \cup (IF r.op = "SetAttr" THEN {"LaterSolvesObeyCurrentAttributes"} ELSE {})
 Emit == EmitEdge([pre |-> StateRec, post |-> StateRecP, ret |-> ret', req |-> ReqOf(obj', last'),
                   probe |-> ProbeOf(obj', metric', chan'), frame |-> FrameOf(ret')])
